@@ -18,6 +18,14 @@ conflicts = [l[3:] for l in st.splitlines() if l[:2] in ('UU', 'AA', 'DU', 'UD')
 for c in conflicts:
     if c == 'known_findings.json':
         continue
+    if c == 'claims.json':
+        # main's claims + the branch's own properties' entries
+        own_c = set('C' + m for m in re.findall(r'c?(\d\d)', br.split('-')[0]))
+        o = json.loads(sh('git', 'show', 'HEAD:claims.json').stdout); t = json.loads(sh('git', 'show', f'{br}:claims.json').stdout)
+        for k in own_c:
+            if k in t: o[k] = t[k]
+        open('/verif/claims.json', 'w').write(json.dumps(o, indent=1, ensure_ascii=False) + '\n'); sh('git', 'add', c)
+        continue
     if c.startswith('evidence/') or c == 'harness/Cargo.lock':
         sh('git', 'checkout', '--ours', c); sh('git', 'add', c)
     elif c == 'harness/src/main.rs':
